@@ -20,6 +20,10 @@ Binding A.  Every Construct edge is replayed on the independent code paths
 under the XPath 3.1 parser (thorough: also 2.0) x XSD 1.0/1.1; every Cast / Castable / ToStr edge on the nested
 expression of the source state's history (BFS spanning tree through passing edges only) as
 `E cast as xs:T`, `xs:T(E)`, `E castable as xs:T`, `string(E)`.
+Operand forms (spec/CastForms.tla): the agreement of `E cast as xs:T`, `E castable as xs:T` and `xs:T(E)` is replayed
+on the XPath 2.0, 3.0 AND 3.1 parsers separately with E written as string literal, xs:string(..), xs:untypedAtomic(..),
+$variable, concat(..), string(@a), @a (attribute node) and . (element node), for xs:QName (XPath 2.0: string literal
+only, XPTY0004 otherwise; 3.x: any string) and a sample of other targets (integer, boolean, date, token, double).
 Literals: every token sequence <= MaxLen over the ASCII family alphabet, probes, and (lexical configurations)
 NON-ASCII look-alikes: each valid base literal with one character replaced by what python's re.IGNORECASE /
 \\d / \\s / int() / float() / str.strip() would take for it (U+017F, U+0130, U+0131, U+212A, U+FF21, U+0661,
@@ -783,6 +787,128 @@ def chain_worker(job):
     return n_eval, fails
 
 
+# ---- operand forms x XPath versions (spec/CastForms.tla) -----------------------------------
+
+FORM_PARSERS = ['2.0', '3.0', '3.1']
+
+
+def form_operand(form: str, text: str) -> str:
+    """the operand E of a case, written in the given form (dumb rendering; the literal has no quotes)"""
+    h = len(text) // 2
+    return {'literal': f"'{text}'", 'string_ctor': f"xs:string('{text}')", 'untyped_ctor': f"xs:untypedAtomic('{text}')",
+            'variable': '$s', 'concat': f"concat('{text[:h]}', '{text[h:]}')", 'string_fn': 'string(@a)',
+            'attribute': '@a', 'element': '.'}[form]
+
+
+def form_eval(expr: str, pv: str, ver: str, text: str):
+    """evaluate on <e a="text">text</e> (built in memory: no attribute-value normalisation) with $s = text"""
+    import xml.etree.ElementTree as ET
+    import elementpath
+    from elementpath.exceptions import ElementPathError
+    if 'form_parsers' not in _state:
+        from elementpath import XPath2Parser
+        from elementpath.xpath30 import XPath30Parser
+        from elementpath.xpath31 import XPath31Parser
+        _state['form_parsers'] = {'2.0': XPath2Parser, '3.0': XPath30Parser, '3.1': XPath31Parser}
+    root = ET.Element('e')
+    root.set('a', text)
+    root.text = text
+    try:
+        r = elementpath.select(root, expr, namespaces=NS, parser=_state['form_parsers'][pv], xsd_version=ver,
+                               variables={'s': text})
+    except ElementPathError as e:
+        return ('err', (e.code or '').split(':')[-1])
+    except RecursionError:
+        return ('escaped', 'RecursionError')
+    except Exception as e:   # noqa
+        return ('escaped', type(e).__name__)
+    if isinstance(r, list):
+        if len(r) != 1:
+            return ('seq', len(r))
+        r = r[0]
+    return ('val', r)
+
+
+def form_exprs(form: str, T: str, text: str) -> dict:
+    e = form_operand(form, text)
+    return {'xp_cast': f'{e} cast as xs:{T}', 'xp_castable': f'{e} castable as xs:{T}', 'xp_ctor': f'xs:{T}({e})'}
+
+
+def form_check(case, out):
+    """-> list of (path, outcome, observed); empty when the three paths conform and agree"""
+    pv, ver, form, T, text = case['pv'], case['ver'], case['form'], case['t'], text_of(case['ts'])
+    ex = form_exprs(form, T, text)
+    obs = {p: form_eval(e, pv, ver, text) for p, e in ex.items()}
+    bad = []
+    if out['mode'] == 'spec':
+        for p in ('xp_cast', 'xp_ctor'):
+            o = judge(out['cast' if p == 'xp_cast' else 'ctor'], obs[p], ver, True)
+            if o is not None:
+                bad.append((p, o, obs[p]))
+        if obs['xp_castable'] != ('val', out['castable']):
+            o = obs['xp_castable']
+            bad.append(('xp_castable', ('says_false' if out['castable'] else 'says_true') if o[0] == 'val' else f'{o[0]}:{o[1]}', o))
+    if not bad:
+        # agreement of the three paths with each other, whatever the specification says about the value
+        c, k, b = obs['xp_cast'], obs['xp_ctor'], obs['xp_castable']
+        agree = b == ('val', c[0] == 'val') and (c[0] == 'val') == (k[0] == 'val') and c[0] in ('val', 'err') and k[0] in ('val', 'err')
+        if agree and c[0] == 'val':
+            try:
+                agree = type(c[1]) is type(k[1]) and (c[1] == k[1] or (c[1] != c[1] and k[1] != k[1]))
+            except Exception:   # noqa
+                agree = False
+        if not agree:
+            bad.append(('three_paths', 'disagree', obs))
+    return bad, 3
+
+
+def forms_worker(job):
+    fails, n = [], 0
+    for case, out in job:
+        bad, k = form_check(case, out)
+        n += k
+        text = text_of(case['ts'])
+        for path, outcome, observed in bad:
+            feat = dict(action='Forms', family=FAM_OF[case['t']], type=case['t'], form=case['form'], parser=case['pv'],
+                        xsd=case['ver'], path=path, outcome=outcome, trait=traits(text, FAM_OF[case['t']]),
+                        src_prim='uA' if case['form'] in ('untyped_ctor', 'attribute', 'element') else 'str',
+                        mode=out['mode'], exp_code=out['cast'].get('code', '-'),
+                        expected='err' if out['cast']['k'] == 'err' else 'value')
+            if outcome.startswith('wrong_class:'):
+                feat.update(outcome='wrong_class', obs_class=outcome.split(':')[1])
+            fails.append((feat, dict(kind='forms', case=dict(case), out=dict(out)), out, observed,
+                          f"{form_exprs(case['form'], case['t'], text)[path if path != 'three_paths' else 'xp_cast']} "
+                          f"(XPath {case['pv']}, XSD {case['ver']}, $s/@a/text = {text!r})"))
+    return n, fails
+
+
+def run_forms(chk: core.Check) -> None:
+    wd = os.path.join(chk.scratch, 'forms')
+    dot = os.path.join(wd, 'g.dot')
+    consts = dict(PVs=set(FORM_PARSERS), Versions={'1.0', '1.1'})
+    cfg = tla.cfg_text(consts, invariants=['LawForms'])
+    r = tla.require_ok(tla.run_tlc('CastForms', cfg, wd, dump_dot=dot, workers=int(os.environ.get('VERIF_TLC_WORKERS', '16'))),
+                       'CastForms', min_distinct=100)
+    chk.model('CastForms', r)
+    chk.coverage.setdefault('constants', {})['forms'] = core.jsonable(consts)
+    g = tla.load_dot(dot)
+    os.remove(dot)
+    jobs = [(g.states[s]['cs'], g.states[d]['cs']) for s, d, a, args in g.edges if a == 'Judge']
+    if not jobs or {c['pv'] for c, o in jobs} != set(FORM_PARSERS) or not any(o['cast']['k'] != 'err' for c, o in jobs):
+        raise tla.MachineryError('CastForms: vacuous case set')
+    jobs.sort(key=lambda j: (j[0]['pv'], j[0]['ver'], j[0]['t'], j[0]['form'], j[0]['ts']))
+    chk.add('transitions', len(g.edges))
+    chk.add('traces_validated_against_impl', len(jobs))
+    chk.add('distinct_nontrivial', len({(c['pv'], c['form'], c['t'], o) for c, o in jobs}))
+    c, o = jobs[len(jobs) // 2]
+    chk.sample(dict(action='Forms', case=c, expected=o, exprs=form_exprs(c['form'], c['t'], text_of(c['ts']))))
+    for n, fails in core.pool_map(forms_worker, core.chunked(jobs, 32)):
+        chk.add('evaluations', n)
+        for feat, case, exp, obs, what in fails:
+            chk.fail(feat, case, exp, obs, what=what)
+    print(f'  forms: states={r.distinct} cases={len(jobs)} tlc={r.wall_s:.1f}s', flush=True)
+
+
 def replay(rec: dict) -> int:
     """re-run one recorded case on the working tree and judge it against the recorded expected state"""
     core.setup_repo_path()
@@ -791,6 +917,14 @@ def replay(rec: dict) -> int:
     print('case     :', case)
     print('expected :', exp)
     out = None
+    if case['kind'] == 'forms':
+        bad, _ = form_check(case['case'], case['out'])
+        print('observed :', bad)
+        if bad:
+            print(f'VIOLATION property=C10 replay=(replayed) outcome={bad[0][1]}')
+            return 1
+        print('agrees with the specification now')
+        return 0
     if case['kind'] == 'construct':
         T, text, ver, path = case['type'], text_of(case['tokens']), case['xsd'], case['path']
         pv = case.get('parser', '3.1')
@@ -868,7 +1002,7 @@ def run(chk: core.Check) -> None:
     chk.assumptions += [
         'spec/Lexical+Canon+CastTable+CastChain are the oracle; W3C regular expressions of XSD 1.1 Part 2 (python re), decimal, float, bytes.fromhex and base64 cross-check the SPEC only',
         'adjudication by XSD 1.1 Part 2 sections 3.3/3.4/4.3.6 and XPath F&O 3.1 section 19 (no second implementation exists for most types)',
-        'alphabet representatives only for Name/NCName/language/anyURI character classes; xs:untypedAtomic -> xs:QName, xs:NOTATION, XPath 2.0 casts to xs:QName are not exercised',
+        'alphabet representatives only for Name/NCName/language/anyURI character classes; xs:untypedAtomic -> xs:QName is judged for the agreement of cast / castable / constructor only, xs:NOTATION is not exercised',
         'double/float values with more than 15 significant digits and xs:float -> xs:double widening are compared approximately and are terminal; xs:float subnormals not enumerated',
         'error codes compared only between FORG0001 and FOCA0002; otherwise only value vs ElementPathError',
     ]
@@ -1024,6 +1158,7 @@ def run(chk: core.Check) -> None:
             chk.sample(dict(action=e[2], args=e[3], source=g.states[e[0]]['val'], expected=g.states[e[1]]['val']))
         print(f'  {name}: states={r.distinct} edges={len(g.edges)} construct={n_cons} chain={len(chain_edges)} '
               f'tlc={r.wall_s:.1f}s unreached={unreached}', flush=True)
+    run_forms(chk)
     chk.coverage['exhaustive'] = True
     chk.coverage['rule'] = ('every edge of the TLC graph of CastChain: Construct(type, literal) for every token sequence <= MaxLen '
                             'over the family alphabet + probes, x XSD version; Cast/Castable/ToStr from every reached value. '
